@@ -33,6 +33,7 @@ import Driver.CtxIni
 import Driver.CodeDes
 import Driver.CodeDigest
 import Driver.CodeIter
+import Driver.CodeWrap
 import Driver.ApacheFile
 /-
 Line protocol driver: `<suite> <op> <args…>` per input line, one result line out.
@@ -75,6 +76,7 @@ def dispatch (line : String) : String :=
   | "cdes" :: rest => Driver.CodeDes.handle rest
   | "cdig" :: rest => Driver.CodeDigest.handle rest
   | "citer" :: rest => Driver.CodeIter.handle rest
+  | "cwrap" :: rest => Driver.CodeWrap.handle rest
   | "afile" :: rest => Driver.ApacheFile.handle rest
   | _ => Driver.bad
 
